@@ -242,7 +242,7 @@ def sweep(prop, repo="/repo", jobs=16, max_mutants=600):
     open_ = [r for r in surv if not r["triage"]]
     return {"generated": len(res), "killed": len(killed), "undecided": len(und), "survived": len(surv),
             "survivors_triaged_equivalent_or_outside_property": len(surv) - len(open_), "survivors_open": len(open_),
-            "open": [{k: r[k] for k in ("function", "line", "mutation")} for r in open_][:60],
+            "open": [{k: r[k] for k in ("function", "line", "mutation")} for r in open_][:400],
             "undecided_list": [{k: r[k] for k in ("function", "line", "mutation")} for r in und][:40]}
 
 
